@@ -2,8 +2,9 @@ SPECIFICATION Spec
 CONSTANTS
   NH = 2
   Dirs <- DirsBoth
-  Sizes <- SizesAll
+  Sizes <- SizesFee
   LowLs <- LowBoth
+  Fees = TRUE
   MaxRestarts = 2
   WatcherConfusesPending = FALSE
   RelaunchUsesAllSets = FALSE
